@@ -6,10 +6,39 @@ module M = Model
 open M
 module String = Stdlib.String
 
-let rec pos_of_int n = if n = 1 then XH else if n land 1 = 0 then XO (pos_of_int (n lsr 1)) else XI (pos_of_int (n lsr 1))
-let z_of_int n = if n = 0 then Z0 else if n > 0 then Zpos (pos_of_int n) else Zneg (pos_of_int (-n))
-let rec int_of_pos = function XH -> 1 | XO p -> 2 * int_of_pos p | XI p -> 2 * int_of_pos p + 1
-let int_of_z = function Z0 -> 0 | Zpos p -> int_of_pos p | Zneg p -> - (int_of_pos p)
+(* integers cross the boundary as decimal strings of ANY size: exact rationals produced by the model (products of dyadic coefficients, tolerances squared)
+   do not fit OCaml's 63-bit int.  Little-endian base 10^9 digit lists; conversion to / from Coq's binary positive by repeated halving / doubling. *)
+let base = 1_000_000_000
+let big_of_string (s : Stdlib.String.t) : int list =          (* decimal digits, no sign *)
+  let n = String.length s in
+  let rec chunks hi acc = if hi <= 0 then List.rev acc else
+    let lo = max 0 (hi - 9) in chunks lo (int_of_string (String.sub s lo (hi - lo)) :: acc) in
+  chunks n []
+let big_is_zero b = List.for_all (fun d -> d = 0) b
+let big_half (b : int list) : int list * int =                   (* b / 2, b mod 2 *)
+  let r = List.rev b in
+  let carry = ref 0 in
+  let q = List.map (fun d -> let v = !carry * base + d in carry := v land 1; v lsr 1) r in
+  (List.rev q, !carry)
+let rec pos_of_big b = let (q, r) = big_half b in
+  if big_is_zero q then XH else if r = 0 then XO (pos_of_big q) else XI (pos_of_big q)
+let big_double (b : int list) (bit : int) : int list =
+  let carry = ref bit in
+  let l = List.map (fun d -> let v = 2 * d + !carry in carry := v / base; v mod base) b in
+  if !carry > 0 then l @ [!carry] else l
+let rec big_of_pos = function XH -> [1] | XO p -> big_double (big_of_pos p) 0 | XI p -> big_double (big_of_pos p) 1
+let big_to_string (b : int list) : Stdlib.String.t =
+  match List.rev b with
+  | [] -> "0"
+  | top :: rest -> String.concat "" (string_of_int top :: List.map (fun d -> Printf.sprintf "%09d" d) rest)
+let z_of_string (s : Stdlib.String.t) =
+  let neg = String.length s > 0 && s.[0] = '-' in
+  let body = if neg then String.sub s 1 (String.length s - 1) else s in
+  if body = "" then failwith "empty number" else
+  let b = big_of_string body in
+  if big_is_zero b then Z0 else if neg then Zneg (pos_of_big b) else Zpos (pos_of_big b)
+let string_of_z = function Z0 -> "0" | Zpos p -> big_to_string (big_of_pos p) | Zneg p -> "-" ^ big_to_string (big_of_pos p)
+let z_of_int n = z_of_string (string_of_int n)
 
 let coq_string (s : Stdlib.String.t) : M.string =
   let r = ref EmptyString in
@@ -44,8 +73,8 @@ let parse (s : Stdlib.String.t) (start : int) : val0 =
       let j = !i in
       if !i < n && s.[!i] = '-' then incr i;
       while !i < n && s.[!i] >= '0' && s.[!i] <= '9' do incr i done;
-      let v = int_of_string (String.sub s j (!i - j)) in
-      if err then VE (z_of_int v) else VZ (z_of_int v) end
+      let v = z_of_string (String.sub s j (!i - j)) in
+      if err then VE v else VZ v end
   in
   let acc = ref [] in
   skip ();
@@ -53,8 +82,8 @@ let parse (s : Stdlib.String.t) (start : int) : val0 =
   VL (List.rev !acc)
 
 let rec print buf = function
-  | VZ z -> Buffer.add_string buf (string_of_int (int_of_z z))
-  | VE z -> Buffer.add_char buf 'E'; Buffer.add_string buf (string_of_int (int_of_z z))
+  | VZ z -> Buffer.add_string buf (string_of_z z)
+  | VE z -> Buffer.add_char buf 'E'; Buffer.add_string buf (string_of_z z)
   | VL l -> Buffer.add_char buf '[';
             List.iteri (fun k v -> if k > 0 then Buffer.add_char buf ' '; print buf v) l;
             Buffer.add_char buf ']'
